@@ -62,7 +62,24 @@ func (r *Run) realBinder(op Op) {
 			}
 			r.Binder.ResetCalls()
 			createdBefore := r.brCreates(br.Name)
+			wasTerminal := BRTerminallyFailed(br)
 			res, err, crashed := r.Binder.Reconcile(br.Namespace, br.Name)
+			if wasTerminal {
+				// "retries a failing request at most BackoffLimit times ... after which the request is observably failed to the
+				// scheduler": from then on the scheduler no longer charges the pod to the selected node, so the binder must not
+				// act on the pod for this request any more
+				r.Probe("rbinder_reconcile_of_terminally_failed_request")
+				for _, c := range r.Binder.CallLog() {
+					if c.Kind != "bindrequests" && (c.Verb == "create" || c.Verb == "patch" || c.Verb == "update" || c.Verb == "delete") {
+						lim := "nil"
+						if br.Spec.BackoffLimit != nil {
+							lim = fmt.Sprint(*br.Spec.BackoffLimit)
+						}
+						r.Fail("C12", "attempt_after_terminal_failure", "BindRequest %s is terminally failed (phase %q, failedAttempts %d, backoffLimit %s: the scheduler treats the pod as pending again) but a further reconcile still acts on the pod: %s", br.Name, br.Status.Phase, br.Status.FailedAttempts, lim, c.String())
+						break
+					}
+				}
+			}
 			if r.brCreates(br.Name) != createdBefore {
 				// a scheduler cycle that ran while this reconcile was in flight deleted the request and created a new one
 				// with the same name: the attempt's outcome says nothing about the new request
@@ -83,6 +100,9 @@ func (r *Run) realBinder(op Op) {
 			// a failed attempt is recognised by its effect (the pod is still unbound and the request did not succeed), not by
 			// the error value: the reconciler swallows the error when it decides that the status needs no update
 			failedNow := err != nil
+			if wasTerminal {
+				continue // judged above: not an attempt
+			}
 			if c := getBR(r.API, br.Name); c != nil && c.Status.Phase != bindv1alpha2.BindRequestPhaseSucceeded {
 				if p := r.API.Pod(br.Namespace, br.Spec.PodName); p != nil && p.Spec.NodeName == "" && p.DeletionTimestamp == nil {
 					failedNow = true
@@ -206,7 +226,20 @@ func (o *HandoffOracle) Finish(r *Run) {
 	r.Probe("c12_final_state_judged")
 }
 
-func (r *Run) persistentFailure(pod string) bool { return r.S.BindFail[pod] >= 99 }
+// persistentFailure: the pod's bind failures have not stopped: it always fails, or the transient failures the script
+// plans for it are not used up yet (a terminally failed request is not retried by the binder: every further attempt
+// needs a scheduler cycle that replaces the request)
+func (r *Run) persistentFailure(pod string) bool {
+	if r.S.BindFail[pod] >= 99 {
+		return true
+	}
+	if r.Binder != nil {
+		r.Binder.mu.Lock()
+		defer r.Binder.mu.Unlock()
+		return r.Binder.bindFailed[pod] < r.S.BindFail[pod]
+	}
+	return false
+}
 
 var _ = fmt.Sprintf
 var _ corev1.Pod
